@@ -59,6 +59,37 @@ PROPS = {
             "the call site in write_http_response (format!-built head; see C06)",
         ],
     },
+    "C14": {
+        "title": "Header collections",
+        "design_ref": "DESIGN.md section 3 (C14)",
+        "technique": "Verus contracts on the real HeaderList / AsciiString functions against an ordered-multimap view (matching / rest filters)",
+        "level_text": "Deductive proof, for every header list, every name and every loop iteration (no bound): get_all returns exactly the "
+                      "values of the matching fields in order; get_only / remove_only answer iff exactly one field matches; remove_all "
+                      "returns the matching values in order and leaves exactly the non-matching fields in their original order (whole-view "
+                      "postcondition); add appends; every AsciiString constructor under contract yields Ok iff the input is ASCII and then "
+                      "holds exactly the input characters.",
+        "level_note": "The name-matching relation is the uninterpreted result of str::eq_ignore_ascii_case (assumed contract), so the theorems "
+                      "hold for whatever that relation is; assumed std contracts: AsRef::as_ref is a function of its argument, ToString of "
+                      "String/Box<str>/char preserves characters, char::is_ascii. Not under contract: TryFrom<&mut str>, TryFrom<Cow<str>> "
+                      "(vstd has no Deref spec for Cow), From<integer> constructors, Debug/Display impls, and that read_http_request performs "
+                      "exactly the three removals (iterator adapters).",
+        "verus": ["headers"],
+        "verus_thorough": [],
+        "kani": [],
+        "witness": "c14",
+        "assumptions": [
+            "assumed contract: str::eq_ignore_ascii_case(a, b) is a fixed relation eq_ic(a, b) of the two strings (uninterpreted)",
+            "assumed contract: AsRef<str>::as_ref returns a fixed function of its receiver",
+            "assumed contract: ToString for String / Box<str> / char yields the same characters (vstd's to_string_from_display_ensures is uninterpreted for them)",
+            "assumed contract: char::is_ascii(c) == (c as u32) < 128",
+            "vstd specifications of Vec::push / remove / len / index, slice iteration, Option, str::is_ascii, str::to_string",
+        ],
+        "not_covered": [
+            "TryFrom<&mut str> and TryFrom<Cow<str>> for AsciiString; From<i8..usize> (to_string of integers)",
+            "that read_http_request removes exactly content-type / expect / transfer-encoding (split/map/filter chains are outside Verus)",
+            "Deref/DerefMut/IntoIterator pass-throughs of HeaderList (callers can mutate the Vec directly)",
+        ],
+    },
 }
 
 NOT_APPLICABLE = {}
